@@ -8,7 +8,7 @@ CLAIMED = {
         "(statement of C01) via the residue lemma over the bit-serial RFC 1662 definition; accessor contracts for every frame satisfying the invariant; reader invariant with a ghost input stream (raw octets of the "
         "current frame are a contiguous stream segment right after a flag, octets == unstuff(raw), every returned frame is closed by a flag and starts after the previous one) proved for _read_next and for read() "
         "through _read_next's contract in the four configurations. The invariant is the induction hypothesis over all histories and chunkings.",
-   note="Trusted: pyvc encoding, z3, prelude contracts for bytearray operations (offset views), ghost stream assumption (chunks are consecutive segments of one stream).",
+   note="When part of the deductive side cannot be built (source restructured beyond the contracts), a bounded fallback search on the real code runs instead of leaving the run silent. Trusted: pyvc encoding, z3, prelude contracts for bytearray operations (offset views), ghost stream assumption (chunks are consecutive segments of one stream).",
    technique=DED + "; class invariant with ghost input history; induction lemmas over recursive spec functions", design="DESIGN.md section 9 C01"),
  "C03": dict(level="proof",
    text="Deductive: contracts on the real FastFrameCheckSequence16 methods and the table generator; VCs generated from the source on every run; "
@@ -19,7 +19,7 @@ CLAIMED = {
  "C04": dict(level="proof",
    text="Deductive, unbounded in the readout length: CRC loop invariant against the bit-serial CRC-16/ARC definition, __init__ establishes the readout invariant, is_valid postconditions (i)-(iv) taken from the "
         "statement (including checksum 0000), payload contract, exceptional postconditions; the identification-line pattern is translated from the source into an SMT regular expression and proved equal to the specified language.",
-   note="Assumed (conformance-tested at replay time): bytes.lstrip/find/decode, str.strip as recursive spec functions; int(text,16) abstract with int(4 hex digits) == hexval4; re implements the regular language of the pattern.",
+   note="When part of the deductive side cannot be built (source restructured beyond the contracts), a bounded fallback search on the real code runs instead of leaving the run silent. Assumed (conformance-tested at replay time): bytes.lstrip/find/decode, str.strip as recursive spec functions; int(text,16) abstract with int(4 hex digits) == hexval4; re implements the regular language of the pattern.",
    technique=DED + "; regex language equivalence in z3's sequence theory", design="DESIGN.md section 9 C04"),
  "C05": dict(level="proof",
    text="Deductive, unbounded: (1) P1 reader contracts with a ghost input stream for every state and chunk - contiguity and byte-identity of returned readouts, identification-line tracking, no complete line left unconsumed, sizes within the bound, "
@@ -80,7 +80,7 @@ CLAIMED = {
    text="Deductive: per-call contract of data_received over abstract readers/messages with a ghost queue (selection of the first candidate, in list order, that returns a valid message; all messages of the selecting call forwarded; "
         "later candidates not fed; selected reader fed exactly once per call afterwards), message_received of both protocols against their forwarding predicate; message lists of any length by loop invariants. "
         "The last sentence of C13 (clean-stream delivery for any candidate order) is NOT decided and stated as such.",
-   note="Assumed: abstract reader/message objects without side effects on the protocol, Queue.put_nowait appends, reader objects truthy; candidate lists of 0..3 readers enumerated (the property's configurations have <= 2).",
+   note="Last sentence of C13 (clean streams, any candidate order): checked on the real readers and protocol classes by a bounded run (90/3000 generated clean streams x candidate lists x chunkings); it is FALSE for an HDLC frame whose payload is a complete valid P1 readout - recorded as an open known finding (known_findings.json) and reported as KNOWN-FINDING. Assumed: abstract reader/message objects without side effects on the protocol, Queue.put_nowait appends, reader objects truthy; candidate lists of 0..3 readers enumerated (the property's configurations have <= 2).",
    technique=DED + "; ghost sequence for the queue, recursive spec functions fwd_count / fwd_at", design="DESIGN.md section 9 C13"),
  "C14": dict(level="proof",
    text="Deductive: exceptional postcondition 'nothing escapes' on HdlcFrameReader.read/_read_next, ModeDReader.read, HdlcFrame and DataReadout message properties and data_received, from the reader invariants, for every state "
@@ -106,7 +106,7 @@ CLAIMED = {
    text="Deductive: ghost failure counter on the strategy object - invariant _delay == 2^(n-1) (0 for n == 0), failure/reset/current_delay_sec == min(2^(n-1), max_delay) for every n and every max_delay >= 1 (unbounded, recursive pow2); "
         "_get_back_off_time == max(back-off delay, breaker sleep); loss-breaker update; sequential contract of _try_connect (sleeps exactly the back-off time before the single factory call; failure()/reset() exactly once). "
         "Manager-level timing under asyncio scheduling is NOT decided by per-call contracts (stated). An exhaustive enumeration of failure/reset sequences runs as a bounded cross-check.",
-   note="Assumed: datetime/timedelta as real-valued instants; _try_connect read sequentially with the closing event arbitrary at every read; factory returns, raises Exception or is cancelled.",
+   note="Manager-level timing (not decided by the per-call contracts): bounded run of the real connect_loop on a real event loop with a virtual clock, every attempt-outcome sequence up to length 6/8 x 4 configurations. Assumed: datetime/timedelta as real-valued instants; _try_connect read sequentially with the closing event arbitrary at every read; factory returns, raises Exception or is cancelled.",
    technique=DED + "; ghost counter invariant", design="DESIGN.md section 9 C18"),
  "C19": dict(level="proof",
    text="Deductive, for every history: size postconditions of read() proved from the reader invariants alone - HDLC: no consumed octet retained (len(buffer) <= len(chunk)), frame <= 2047 octets, raw frame data <= 2*2048+1; "
@@ -116,7 +116,7 @@ CLAIMED = {
    text="Deductive part: to_reduced_str == reduced_str(groups) for all groups 0..255 (string theory with str.from_int), to_group_cdr_str, __hash__, __eq__ (Obis and str operands), from_string, to_obis_tupple as a function of the regex groups "
         "with its exact ValueError condition, language of the combined pattern == the two specified forms, 'no digit-dot => ValueError'. What the capture groups are for a given text (re priority semantics) is assumed and checked by a BOUNDED "
         "conformance / round-trip enumeration on the real code; hence 'other'.",
-   note="Bounded: 16 presence patterns x (400 boundary tuples + random) + dotted forms + malformed strings.", technique=DED + " (z3 sequence theory) + regex language equivalence; bounded conformance of re capture groups", design="DESIGN.md section 9 C20"),
+   note="When part of the deductive side cannot be built (source restructured beyond the contracts), a bounded fallback search on the real code runs instead of leaving the run silent. Bounded: 16 presence patterns x (400 boundary tuples + random) + dotted forms + malformed strings.", technique=DED + " (z3 sequence theory) + regex language equivalence; bounded conformance of re capture groups", design="DESIGN.md section 9 C20"),
 }
 NA = {
  "C17": "quantifies over asyncio task schedules and the moment close() lands between await points; per-call sequential contracts cannot express it and no installed deductive back end models the event loop (DESIGN section 9 C17)",
